@@ -112,6 +112,24 @@ Definition chic_fragment (c : cfg) (pre_qcfail : bool) (r1 : option read) (r2 : 
                   (negb pre_qcfail && found) (Some pos) (Some strand))
   end.
 
+(* CHICFragment with the homopolymer filter of Fragment.__init__ (max_NUC_stretch = 18 for CHICFragment;
+   tested nucleotides and the literal are GENERATED: nuc_stretch_bases, chic_max_nuc_stretch).
+   [seqs]: the stored sequences of the reads of the fragment (None entries left out).  A homopolymer read
+   makes the fragment qcfail (never valid), flags the reads, and adds the reason "HomoPolymer";
+   identify_site still runs afterwards and still writes its tags. *)
+Definition s_HomoPolymer : str := [72; 111; 109; 111; 80; 111; 108; 121; 109; 101; 114].   (* "HomoPolymer" *)
+Definition mark_homo (o : obs) : obs :=
+  mkObs (o_ds o) (o_rs o) (o_rz o)
+        (Some (s_HomoPolymer ++ match o_rr o with Some r => 44 :: r | None => [] end))   (* ','.join(sorted(..)) *)
+        true (o_valid o) (o_loc o) (o_cut_strand o).
+Definition any_homopolymer (seqs : list str) : bool :=
+  existsb (homopolymer chic_max_nuc_stretch nuc_stretch_bases) seqs.
+Definition chic_fragment_h (c : cfg) (pre_qcfail : bool) (r1 : option read) (r2 : option (bool * bool))
+                           (seqs : list str) : result :=
+  if any_homopolymer seqs
+  then match chic_fragment c true r1 r2 with Raise => Raise | Done o => Done (mark_homo o) end
+  else chic_fragment c pre_qcfail r1 r2.
+
 (* ------------------------------------------------------------------ ground truth: sequencing simulator *)
 Definition comp (b : Z) : Z :=
   if b =? 65 then 84 else if b =? 84 then 65 else if b =? 67 then 71 else if b =? 71 then 67 else b.
@@ -207,6 +225,10 @@ Definition nla_frag_sites (c : cfg) (rs : list read) : list (bool * Z) :=
 Definition site_obs (p : Z) (rs cut : bool) (rz : option str) (pre : bool) : obs :=
   mkObs (Some p) (Some rs) rz None false (negb pre) (Some p) (Some cut).
 
+(* no_umi_cigar_processing switches the clip correction off: the site then moves with the clipped cycles *)
+Definition clip_shift (c : cfg) (reverse : bool) (clip : Z) : Z :=
+  if c_nocigar c then (if reverse then - clip else clip) else 0.
+
 (* a rejected fragment: no DS, not valid, reads flagged qcfail, nothing recognised *)
 Definition is_rejected (x : result) : Prop :=
   exists o, x = Done o /\ o_ds o = None /\ o_valid o = false /\ o_qcfail o = true /\ o_rz o = None
@@ -249,7 +271,7 @@ Definition enc_read (r : read) : Val :=
   VL [VZ (r_start r); VL (map ofPair (r_cigar r)); ofB (r_rev r); ofZs (r_seq r); ofB (r_unmapped r);
       ofOptS (r_mx r)].
 
-(* mode 0: [kind; cfg; two_reads; pre_qcfail; r1; r2]  -> observation   (kind 0 = nla, 1 = chic)
+(* mode 0: [kind; cfg; two_reads; pre_qcfail; r1; r2; seqs]  -> observation   (kind 0 = nla, 1 = chic)
    mode 1: [kind; cycles; mid; pos; reverse; clip; tail; flag; mx] -> the simulated read (ground truth layer)
    mode 2: [L; read] -> mirror L read
    mode 3: [radius; [[strand; site]...]] -> DS of every fragment after CHICMolecule.write_tags
@@ -259,7 +281,8 @@ Definition run_C09 (mode : Z) (v : Val) : Val :=
   | 0 => let c := dec_cfg (nthV 1 v) in
          if getZ (nthV 0 v) =? 0
          then enc_result (nla_fragment c (getB (nthV 2 v)) (getB (nthV 3 v)) (dec_read (nthV 4 v)))
-         else enc_result (chic_fragment c (getB (nthV 3 v)) (dec_read (nthV 4 v)) (dec_r2 (nthV 5 v)))
+         else enc_result (chic_fragment_h c (getB (nthV 3 v)) (dec_read (nthV 4 v)) (dec_r2 (nthV 5 v))
+                                          (map getZs (getL (nthV 6 v))))
   | 1 => let cyc := getZs (nthV 1 v) in let mid := dec_cigar (nthV 2 v) in
          let p := getZ (nthV 3 v) in let rv := getB (nthV 4 v) in
          let clip := getZ (nthV 5 v) in let tail := getZ (nthV 6 v) in let flag := getB (nthV 7 v) in
